@@ -466,11 +466,11 @@ let judge_sched (which : string) g (obs : string) (pre : srv) (eui : n) : string
     (* the recorded race: each handler read the device row before the other had stored the advanced counter or
        recorded the frame *)
     let each_read_before_the_other_wrote =
-      List.for_all (fun (x, y) -> first_pos x "GetDevice" < first_pos y "UpdateDeviceState" && first_pos x "GetDevice" < first_pos y "CreateUpstreamMessage")
+      List.for_all (fun (x, y) -> first_pos x "GetDevice" < first_pos y "AdvanceFCntUp" && first_pos x "GetDevice" < first_pos y "CreateUpstreamMessage")
         [("0", "1"); ("1", "0")] in
     (* ... and for downlink counters: the later reader read before the other's encoder stored its counter *)
     let snapshots_overlap =
-      List.exists (fun (x, y) -> first_pos x "GetDevice" < last_pos y "UpdateDeviceState" && first_pos y "GetDevice" < last_pos x "UpdateDeviceState")
+      List.exists (fun (x, y) -> first_pos x "GetDevice" < last_pos y "NextFCntDn" && first_pos y "GetDevice" < last_pos x "NextFCntDn")
         [("0", "1")] in
     (match which with
      | "C03" ->
